@@ -531,7 +531,12 @@ func init() {
 	})
 	reg("fmt.Printf", intrinsics["fmt.Println"])
 	reg("runtime.Callers", func(ex *Exec, a []Value, _ *Frame) Value { return Int{ex.tf.I64(0)} })
-	reg("github.com/pkg/errors.callers", func(ex *Exec, a []Value, _ *Frame) Value { return Ptr{} })
+	reg("github.com/pkg/errors.callers", func(ex *Exec, a []Value, _ *Frame) Value {
+		// an empty (non-nil) stack: stack traces are diagnostics only
+		t := ex.namedType("github.com/pkg/errors", "stack")
+		return Ptr{O: ex.newObj(Slice{}, t)}
+	})
+	reg("(*github.com/pkg/errors.stack).StackTrace", func(ex *Exec, a []Value, _ *Frame) Value { return Slice{} })
 	reg("strconv.Itoa", func(ex *Exec, a []Value, _ *Frame) Value { return ex.decString(a[0].(Int).T) })
 	reg("strconv.FormatUint", func(ex *Exec, a []Value, _ *Frame) Value {
 		if ex.mustInt(a[1], "base") != 10 {
